@@ -47,6 +47,34 @@ def by_case(flat, width):
     return d
 
 
+def situational_cases(ctx):
+    """harness/cmd/c14f: update / removal of a process whose instance has not launched yet (Pending on a dependency) or
+    sits in its restart back-off - situations the model-based harness does not reach (its commands never end).
+    Test-level oracle = the property text; returns a dict for the evidence file."""
+    ok, binp, log = V.build_harness("c14f")
+    if not ok:
+        ctx.broken_build("harness-build c14f (-tags verif) against current /repo tree", log)
+        return {}
+    d = ctx.rundir / "c14f"
+    d.mkdir(exist_ok=True)
+    rc, out = V.sh([str(binp), "-out", str(d)], timeout=600)
+    if rc != 0:
+        ctx.broken_build("c14f run", out)
+        return {}
+    cases = json.load(open(d / "cases_C14f.json"))
+    bad = [c for c in cases if c.get("violations")]
+    errs = [c for c in cases if c.get("err")]
+    if bad:
+        c = bad[0]
+        ctx.violation({"kind": "update-of-a-not-yet-launched-instance", "case": c, "cases": bad,
+                       "how_to_rerun": "build/bin/c14f -out <dir>"},
+                      "live update (%s): %s (%d of %d situational cases)" % (c["kind"], c["violations"][0], len(bad), len(cases)))
+    if errs:
+        ctx.broken_build("c14f: %d situational cases could not be run" % len(errs), errs[0].get("err", ""))
+    return {"situational_cases_pending_or_backoff": {"cases": len(cases), "violating": len(bad), "not_run": len(errs),
+            "oracle": "the old configuration is never launched after the update / removal; the new one is (test-level, no theorem)"}}
+
+
 def run(ctx):
     ok, log = V.build_coq()
     if not ok:
@@ -201,7 +229,9 @@ def run(ctx):
                            "out": [{k: o.get(k) for k in ("status", "names", "alive", "registered")} for o in c["out"][:3]]})
             break
     cmps = [c for c in cases.get("cmp", []) if c["kind"].startswith("single:exe")][:1]
+    sit = situational_cases(ctx) if ok and not ctx.replay else {}
     cov = V.proof_coverage(rep, {
+        **sit,
         "evaluations": len(runs) + len(cases.get("cmp", [])),
         "distinct_nontrivial": distinct,
         "rule": "update cases = corpus + directed scenarios (one launch-relevant setting changed, per path direct/reload/REST; "
